@@ -787,6 +787,14 @@ func c09MakeOps() (sig, desc []c09Op) {
 	}, func(g *ref.S35Seg) {
 		g.MID = []ref.S35UPID{{Type: 0x09, Data: []byte("ab")}, {Type: 0x01}}
 	})
+	// the documented refusals: SetUPID "only works if UPIDType is not SegUPIDMID", SetMID only if it is - nothing changes
+	dv("SetUPID(8 bytes) on a multiple-UPID descriptor (ignored)", c09D0IsMID, func(d scte35.SegmentationDescriptor) { d.SetUPID([]byte{8, 7, 6, 5, 4, 3, 2, 1}) }, func(g *ref.S35Seg) {})
+	dv("SetMID(one entry) on a single-UPID descriptor (ignored)", c09D0NotMID, func(d scte35.SegmentationDescriptor) {
+		u := scte35.CreateUPID()
+		u.SetUPIDType(scte35.SegUPIDADI)
+		u.SetUPID([]byte("zz"))
+		d.SetMID([]scte35.UPID{u})
+	}, func(g *ref.S35Seg) {})
 	dv("SetMID(none)", c09D0IsMID, func(d scte35.SegmentationDescriptor) { d.SetMID(nil) }, func(g *ref.S35Seg) { g.MID = nil })
 	dv("MID()[0].SetUPID(5 bytes)", c09D0HasMID, func(d scte35.SegmentationDescriptor) { d.MID()[0].SetUPID([]byte("hello")) }, func(g *ref.S35Seg) { g.MID[0].Data = []byte("hello") })
 	desc[len(desc)-1].doSt = func(st *c09State, s scte35.SCTE35) { c09D0(s).MID()[0].SetUPID(st.guarded([]byte("hello"))) }
@@ -1072,7 +1080,7 @@ func init() {
 	sigRule := "alphabet: UpdateData; SCTE35.SetTier {FFF,0,1ABC->ABC}, SetHasPTS t/f, SetPTS {90000,2^33-1}, SetAdjustPTS {0,2^32+5}, SetAlignmentStuffing {0,3}, SetCommandInfo(fresh null / time_signal / splice_insert), SetDescriptors(none / current + fresh / same slice with the last element replaced by a descriptor of another signal); " +
 		"CommandInfo().SetHasPTS t/f, SetPTS {1, 2^33+7->7}; SpliceInsert.Set{IsEventCanceled,IsOut,IsProgramSplice,HasDuration,SpliceImmediate,IsAutoReturn} t/f, SetDuration, SetEventID, SetUniqueProgramId, SetAvailNum, SetAvailsExpected; Components()[0].SetComponentTag, SetPTS(3*2^32->2^32), SetHasPTS t/f"
 	descRule := "alphabet on Descriptors()[0]: UpdateData; SetDescriptors(none / current + fresh); Set{IsEventCanceled,HasProgramSegmentation,HasDuration,IsDeliveryNotRestricted,IsWebDeliveryAllowed,HasNoRegionalBlackout,IsArchiveAllowed,HasSubSegments} t/f; " +
-		"SetDuration {2^40+2^39+1 -> 2^39+1, 2^39-1}; SetDeviceRestrictions {0,2}; SetEventID; SetTypeID {34,36,10}; SetSubSegmentNumber/Expected; SetSegmentNumber/Expected; SetUPIDType {MID,TI,not used}; SetUPID {8 bytes, empty}; SetMID {2 entries, none}; MID()[0].SetUPID / SetUPIDType; SetComponents {one, none, own handles reversed, own last handle + fresh + own first}; SetMID(own handles reversed); Components()[0].SetPTSOffset / SetComponentTag"
+		"SetDuration {2^40+2^39+1 -> 2^39+1, 2^39-1}; SetDeviceRestrictions {0,2}; SetEventID; SetTypeID {34,36,10}; SetSubSegmentNumber/Expected; SetSegmentNumber/Expected; SetUPIDType {MID,TI,not used}; SetUPID {8 bytes, empty; on a MID descriptor: ignored}; SetMID {2 entries, none; on a single-UPID descriptor: ignored}; MID()[0].SetUPID / SetUPIDType; SetComponents {one, none, own handles reversed, own last handle + fresh + own first}; SetMID(own handles reversed); Components()[0].SetPTSOffset / SetComponentTag"
 	bfsOracle := "; two twins receive every call: on the lazy one all getters (including fields hidden behind cleared flags) == model after every call and Data() is unchanged unless the call is UpdateData(); the eager one is encoded after every call: " + c09Oracle +
 		"; states deduplicated on model + Data(); not asserted (model adopts the object's value): signal PTS after SCTE35.SetPTS on a splice_null, stored upid/MID after SetUPIDType, HasSubSegments after SetTypeID to a type without sub-segment fields, alignment stuffing content"
 	engine.Register(&engine.Property{
